@@ -872,6 +872,9 @@ def scen_detect(ctx, M):
     rsize = p.get('read', 4096)
     if rsize == 'sym':
         rsize = ctx.int('rsize', 1, 65536)
+        # at most `max_sym_reads` non-empty reads (each read position forks
+        # against every region boundary)
+        ctx.assume(rsize * p.get('max_sym_reads', 4) >= N)
     pos = [0]
 
     class Src:
